@@ -18,7 +18,7 @@ from collections import OrderedDict
 
 
 def fill_trajectory(
-    performance_list: List[np.ndarray], time_list: List[np.ndarray], replace_nan=np.NaN
+    performance_list: List[np.ndarray], time_list: List[np.ndarray], replace_nan=np.nan
 ) -> (np.ndarray, np.ndarray):
     frame_dict = OrderedDict()
     for c, (p, t) in enumerate(zip(performance_list, time_list)):
